@@ -353,3 +353,81 @@ def ms_cases(count, seed):
         strands = [{"sequence": seq[a:b], "structure": s[a:b]} for a, b in zip(bounds, bounds[1:])]
         cases.append({"id": f"ms{seed}-{k}", "kind": "ms", "instrands": strands, "headers": bool(k % 2)})
     return cases
+
+
+# ------------------------------------------------------------------ elements (C07)
+
+def _strand(s):
+    return {"first": s.first, "last": s.last, "sequence": list(s.sequence), "structure": list(s.structure)}
+
+
+def record_elements(case):
+    c = dict(case)
+    c["source"] = "BpSeq.elements"
+    b = _bpseq(case)
+    d = _enc(lambda: b.dot_bracket)
+    c["db"] = {"err": d["err"], "db": d["db"]}
+    try:
+        stems, singles, hairpins, loops = b.elements
+        c["el"] = {"err": "",
+                   "stems": [{"s5": _strand(s.strand5p), "s3": _strand(s.strand3p)} for s in stems],
+                   "singles": [{"strand": _strand(s.strand), "is5p": bool(s.is5p), "is3p": bool(s.is3p)} for s in singles],
+                   "hairpins": [{"strand": _strand(h.strand)} for h in hairpins],
+                   "loops": [{"strands": [_strand(s) for s in lp.strands]} for lp in loops]}
+    except Exception as e:
+        c["el"] = {"err": type(e).__name__, "stems": [], "singles": [], "hairpins": [], "loops": []}
+    return c
+
+
+def record_elements_cli(case):
+    """Bind the CLI: motif_extractor.main --bpseq <file>; parse what it prints."""
+    import contextlib
+    import io
+    import sys
+    import tempfile
+    from rnapolis import motif_extractor
+    c = dict(case)
+    c["id"] = case["id"] + "-cli"
+    c["source"] = "motif_extractor.main"
+    b = _bpseq(case)
+    el = {"err": "", "stems": [], "singles": [], "hairpins": [], "loops": []}
+    c["db"] = {"err": "", "db": []}
+    with tempfile.NamedTemporaryFile("w", suffix=".bpseq", delete=True) as f:
+        f.write(str(b) + "\n")
+        f.flush()
+        argv, buf = sys.argv, io.StringIO()
+        try:
+            sys.argv = ["motif_extractor", "--bpseq", f.name]
+            with contextlib.redirect_stdout(buf):
+                motif_extractor.main()
+        except BaseException as e:
+            el["err"] = type(e).__name__
+        finally:
+            sys.argv = argv
+    lines = buf.getvalue().splitlines()
+
+    def strands(fields):
+        out = []
+        for k in range(0, len(fields), 4):
+            out.append({"first": int(fields[k]), "last": int(fields[k + 1]),
+                        "sequence": list(fields[k + 2]), "structure": list(fields[k + 3])})
+        return out
+    if el["err"] == "":
+        try:
+            if len(lines) >= 3 and lines[0].startswith("Full dot-bracket"):
+                c["db"]["db"] = list(lines[2])
+            for line in lines[3:]:
+                f = line.split()
+                if f[0] == "Stem":
+                    s = strands(f[1:])
+                    el["stems"].append({"s5": s[0], "s3": s[1]})
+                elif f[0].startswith("SingleStrand"):
+                    el["singles"].append({"strand": strands(f[1:])[0], "is5p": "5p" in f[0], "is3p": "3p" in f[0]})
+                elif f[0] == "Hairpin":
+                    el["hairpins"].append({"strand": strands(f[1:])[0]})
+                elif f[0] == "Loop":
+                    el["loops"].append({"strands": strands(f[1:])})
+        except Exception as e:
+            el["err"] = "Unparsable:" + type(e).__name__
+    c["el"] = el
+    return c
